@@ -37,4 +37,24 @@ PROPS = {
         "text": "After every delivery (incl. redelivery of heads and arbitrary ancestors) each node's documents are compared with a trivial reference model: counter = sum of merged increments, register in the causally latest writes, delete permanent, ancestors visible.",
         "note": "Trusted: the reference model (set of merged commits closed under harness-recorded ancestry); increments chosen exactly representable.",
     },
+    "C03": {
+        "engine": "E1", "level": "exploration", "design_ref": "DESIGN.md §5 C03",
+        "technique": "deterministic simulation: every commit of every simulated history (linear and merged) read back by cid against the reference model; subscriptions compared with the state at the triggering commit",
+        "rule": E1_RULE + "; each run adds up to 40 reads at a commit per node and step", "real_vs_stub": REAL_E1, "assumptions": ASSUME_COMMON,
+        "probes": ["timetravel_reads", "timetravel_reads_branching", "subscription_results"],
+        "quick": {"count": 60, "budget_s": 70, "workers": 16},
+        "thorough": {"count": 100000, "budget_s": 1500, "workers": 16},
+        "text": "For every node and every commit of its merged history (shapes produced by the delivery schedule, incl. two-parent commits) the read at that commit must equal the model state of the commit's ancestor set, the ordinary query recorded right after the commit on its writer, and the current query at a single head; subscription results are compared the same way.",
+        "note": "Reads at or after a delete commit are not compared (the statement does not say what they show). Trusted: reference model, harness ancestry bookkeeping.",
+    },
+    "C04": {
+        "engine": "E1", "level": "exploration", "design_ref": "DESIGN.md §5 C04",
+        "technique": "deterministic simulation: raw-store invariant scan (content addressing, closure, heights, heads = frontier of merged commits per document and per field) after every simulator step",
+        "rule": E1_RULE + "; invariants evaluated after every local operation and every delivery", "real_vs_stub": REAL_E1, "assumptions": ASSUME_COMMON,
+        "probes": ["dag_scans", "genesis_reproduced", "deliver_with_heads_at_different_heights", "redeliveries"],
+        "quick": {"count": 100, "budget_s": 60, "workers": 16},
+        "thorough": {"count": 100000, "budget_s": 1500, "workers": 16},
+        "text": "After every step the raw blockstore and headstore of the touched node are scanned: each block filed under the hash of its bytes (also checked online on every write), links of everything reachable from heads resolve, height = 1 + max parent height, headstore entries of every document and field = frontier of the merged commits (model) and of the merged field blocks, cross-checked with latestCommits; same genesis on two nodes is the same block.",
+        "note": "Frontier of composite commits comes from the harness model; frontier of field commits is computed from the blocks linked by merged composites. Blocks stored but not merged are allowed.",
+    },
 }
